@@ -35,7 +35,7 @@ SERIALIZERS = ("serializer_6", "serializer_5", "serializer_4", "serializer_2")
 
 
 @rule("C14.R1", "C14", "DOM", "backup rotation dominates writing; path updated only after a successful write",
-      min_instances=6)
+      min_instances=6, also=("C04",))
 def r1(ctx, R):
     """serialize.write_model: _increment_backups(model, root, max_backups) dominates
     ModelWriter(..., root, ...).write_model(); max_backups = DEFAULT_MAX_BACKUPS if backup
